@@ -671,3 +671,108 @@ func TestVfC14UdpServerRestart(t *testing.T) {
 		})
 	})
 }
+
+// TestVfC14LocalSocketBroken: a pooled connection can also die on the proxy's own side - the kernel refuses to send on
+// it although the server is healthy and nothing arrives that would tell the reader. The harness keeps a duplicate of
+// the descriptor of every socket the upstream opens (through the Control option the package offers) and shuts the
+// sending direction of the pooled ones down: every later write on them fails (EPIPE), reads stay quiet (udp) or see
+// the peer's answer to the FIN (stream). The failure is on a connection reused from the pool and a healthy server is
+// reachable, so the next exchange has to succeed, on a new socket, with a bounded number of attempts.
+func TestVfC14LocalSocketBroken(t *testing.T) {
+	st := vfkit.Stats("TestVfC14LocalSocketBroken", "udp / tcp / tcp+pipeline / tls / tls+pipeline upstreams on loopback sockets: 1-3 warm exchanges, then the sending direction of every pooled socket is shut down from the proxy's side (shutdown(SHUT_WR) on a duplicate of the descriptor: later sends fail with EPIPE, nothing is received on udp), 0-20 ms later 1-3 exchanges with a 3 s deadline, sequentially or together, over 1-6 rounds; oracle: every one of them succeeds (the server is healthy and reachable) and at most 7 new sockets are opened per exchange; non-trivial = every case")
+	defer vfkit.Flush()
+	_, leaf := vfTLSMaterial()
+	rapid.Check(t, func(t *rapid.T) {
+		kind := rapid.SampledFrom([]string{"udp", "udp", "tcp", "tcp+pipeline", "tls", "tls+pipeline"}).Draw(t, "kind")
+		srv, err := vfkit.StartUpstream(kind, "s", "127.0.0.1", 0, vfkit.ServerTLS(leaf), func(q *vfkit.UpQuery) vfkit.UpAction {
+			return vfkit.UpAction{Reply: vfOKReply(q)}
+		})
+		if err != nil {
+			t.Fatalf("fake server: %v", err)
+		}
+		defer srv.Close()
+		var mu sync.Mutex
+		var dups []int
+		opened := 0
+		defer func() {
+			mu.Lock()
+			for _, fd := range dups {
+				syscall.Close(fd)
+			}
+			mu.Unlock()
+		}()
+		ca, _ := vfTLSMaterial()
+		u, err := upstream.NewUpstream(vfUpstreamAddr(kind, srv.Port), upstream.Opt{TLSConfig: &tls.Config{RootCAs: ca.Pool()},
+			Control: func(network, address string, c syscall.RawConn) error {
+				return c.Control(func(fd uintptr) {
+					if d, err := syscall.Dup(int(fd)); err == nil {
+						mu.Lock()
+						dups = append(dups, d)
+						opened++
+						mu.Unlock()
+					}
+				})
+			}})
+		if err != nil {
+			t.Fatalf("NewUpstream(%s): %v", kind, err)
+		}
+		defer vfClose(u)
+		for i, n := 0, rapid.IntRange(1, 3).Draw(t, "warmExchanges"); i < n; i++ {
+			ctx, cancel := context.WithTimeout(context.Background(), 3*time.Second)
+			ok, err, _ := vfExchange(u, ctx, uint16(10+i), "warm.c14")
+			cancel()
+			if !ok {
+				t.Fatalf("%s: warm-up exchange failed: %v", kind, err)
+			}
+		}
+		rounds := rapid.IntRange(1, 6).Draw(t, "rounds")
+		for r := 0; r < rounds; r++ {
+			mu.Lock()
+			broken := len(dups)
+			for _, fd := range dups {
+				syscall.Shutdown(fd, syscall.SHUT_WR)
+				syscall.Close(fd)
+			}
+			dups = nil
+			before := opened
+			mu.Unlock()
+			time.Sleep(time.Duration(rapid.SampledFrom([]int{0, 0, 1, 20}).Draw(t, "gapMs")) * time.Millisecond)
+			k := rapid.IntRange(1, 3).Draw(t, "exchanges")
+			together := rapid.Bool().Draw(t, "together")
+			type res struct {
+				ok   bool
+				err  error
+				took time.Duration
+			}
+			out := make(chan res, k)
+			one := func(i int) {
+				ctx, cancel := context.WithTimeout(context.Background(), 3*time.Second)
+				ok, err, took := vfExchange(u, ctx, uint16(100+10*r+i), "after-shutdown.c14")
+				cancel()
+				out <- res{ok, err, took}
+			}
+			for i := 0; i < k; i++ {
+				if together {
+					go one(i)
+				} else {
+					one(i)
+				}
+			}
+			for i := 0; i < k; i++ {
+				x := <-out
+				if !x.ok {
+					t.Fatalf("%s: the sending direction of the %d pooled socket(s) was shut down on the proxy's side (round %d), the server is healthy; an exchange with a 3 s deadline failed after %v: %v", kind, broken, r, x.took, x.err)
+				}
+			}
+			mu.Lock()
+			newSockets := opened - before
+			mu.Unlock()
+			if newSockets > 7*k {
+				t.Fatalf("%s: %d new sockets for %d exchanges after the pooled ones broke", kind, newSockets, k)
+			}
+		}
+		st.Case(vfkit.Fingerprint(kind, rounds), true, []string{"kind=" + kind}, func() any {
+			return map[string]any{"kind": kind, "rounds": rounds, "sockets_opened": opened}
+		})
+	})
+}
